@@ -13,7 +13,7 @@ from verif.specs import sx
 from verif.specs.sx import X
 
 LEVEL = 'other'
-EXPECTED_MIN = {'quick': 8, 'thorough': 9}
+EXPECTED_MIN = {'quick': 16, 'thorough': 17}
 EXPLANATION = ('PROVED (exact normal form; g = (unit quaternion, translation) symbolic): to_local is left-invariant; world_to_joint maps a rigidly transformed state (g o x, R xd) to the SAME '
                'joint-frame pose and twist (j, jd) and to covariant anchors -- so every joint kernel, being a function of (j, jd), sees identical inputs; com.from_world / to_world / '
                'inv_inertia are covariant; the spring and positional integrators commute with g when gravity is rotated with the scene; spring.joints.resolve is covariant with the '
@@ -422,6 +422,15 @@ def obligations(tier):
   Q, Th = ('quick', 'thorough'), ('thorough',)
   obs = [to_local_invariant(), w2j_invariant('h', Q), w2j_invariant('sh', Th), com_covariant(), integrator_covariant('spring'), integrator_covariant('positional'), resolve_covariant(),
          forward_equivariant(Q), sibling_permutation(), bounded(tier)]
+  # premises: "every quantity is carried in an explicit frame and moved with Transform.do / inv_do / math.rotate" -- the frame-moving helpers are what they claim to be
+  # (the corresponding C09 obligations, carried here as premises so that a slip in one of them is reported against C05 as well)
+  from verif.contracts import C09
+  want = ('C09/quat_mul/hamilton', 'C09/rotate/sandwich', 'C09/vec_quat_mul/embed', 'C09/Transform.do/spec', 'C09/Transform.do[Motion]/spec', 'C09/Transform.do[Force]/spec',
+          'C09/Transform.do[Motion]/inverse', 'C09/relative_quat/def')
+  for o in C09.obligations(tier):
+    if o.id in want:
+      o.id = o.id.replace('C09/', 'C05/premise/')
+      obs.append(o)
 
   def canary():
     # invariance of the WORLD-frame anchor a_p (it is covariant, not invariant) must be refuted
